@@ -31,6 +31,9 @@ RULE = ("A Hypothesis RuleBasedStateMachine over a shared pool (2-3 shell object
         "arguments: every public integral / evaluation / density / stress / ESP / import function as a VALID call on the pooled "
         "objects; the same functions as deliberately INVALID calls (wrong shape, wrong dtype incl. non-numeric arrays, wrong "
         "length, bad notation / deriv_type / coordinate type, negative threshold, mismatched or non-symmetric density matrix); "
+        "recall_after_inplace_change (a valid call made twice in a row on the same objects, the contents of the points / density "
+        "matrix / transformation / origin and nuclei / first shell's centre changed IN PLACE in between, no other call intervening; "
+        "the second value is the one judged against fresh copies); "
         "import_iodata (from_iodata on one of two pooled IOData stand-ins with different conventions; the imported shells join the pool); set_param (new exps / coeffs / coord through the setters, or by changing in place the arrays the shell holds); renormalise (assign_norm_cont); set_errstate.  Invariants "
         "after EVERY step: byte-level snapshots of every pooled array/list and of every shell's coord, exps, coeffs, norm_cont, "
         "coord_type, angmom equal the model (which changes only through set_param / renormalise); numpy.geterr() equals what the "
@@ -272,6 +275,34 @@ class World:
         with warnings.catch_warnings():
             warnings.simplefilter("ignore")
             if kind == "valid":
+                pre = st_.get("pre")
+                if pre:
+                    # the call is made twice in a row on the SAME objects with the contents of one of them changed in place in
+                    # between (no reference call on fresh copies intervenes): a result remembered per object would be stale
+                    aux0 = {"basis_dict": self.basis_dict, "atoms": self.atoms, "coords": self.coords, "coord_types": self.coord_types,
+                            "paths": self.paths, "psd": self.env["gamma"] @ self.env["gamma"].T, "imported": self.imported}
+                    try:
+                        self.call_valid(st_["name"], st_["t"], self.shells, self.env, self.transform, self.gamma_t, aux0)
+                    except Exception:  # noqa: BLE001 - judged by the second call
+                        pass
+                    np.seterr(**self.err)
+                    if pre == "points":
+                        self.env["points"] += 0.25
+                    elif pre == "gamma":
+                        self.env["gamma"] *= 0.5
+                        self.gamma_t *= 0.5
+                    elif pre == "transform":
+                        self.transform *= 1.25
+                    elif pre == "origin":
+                        self.env["origin"] += 0.5
+                        self.env["nuc_coords"] += 0.125
+                    else:
+                        d = dict(self.model[0])
+                        d["coord"] = [c + 0.125 for c in d["coord"]]
+                        self.shells[0].coord[:] = np.array(d["coord"], dtype=float)
+                        self.model[0] = d
+                    self.snapshot = self.take()
+                    self.flags.add("recall-after-inplace-change")
                 aux = {"basis_dict": self.basis_dict, "atoms": self.atoms, "coords": self.coords, "coord_types": self.coord_types,
                        "paths": self.paths, "psd": self.env["gamma"] @ self.env["gamma"].T, "imported": self.imported}
                 try:
@@ -479,6 +510,10 @@ def machine(shard, report):
         def valid_field(self, name, t):
             self.do({"rule": "valid", "name": name, "t": bool(t and name in quant.BYNAME)})
 
+        @rule(name=st.sampled_from(VALID[:23]), t=st.booleans(), pre=st.sampled_from(["points", "gamma", "transform", "origin", "coord"]))
+        def recall_after_inplace_change(self, name, t, pre):
+            self.do({"rule": "valid", "name": name, "t": bool(t and name in quant.BYNAME), "pre": pre})
+
         @rule(name=st.sampled_from(VALID[23:]))
         def valid_import(self, name):
             self.do({"rule": "valid", "name": name, "t": False})
@@ -524,4 +559,4 @@ def shards(tier):
 
 
 SUBCHECKS = [SubCheck("history", judge, shards, machine=machine)]
-EXPECTED_CLASSES = ["history/iodata-import", "history/call-after-different-call", "history/valid-after-invalid", "history/call-after-set_param+renormalise"]
+EXPECTED_CLASSES = ["history/iodata-import", "history/call-after-different-call", "history/valid-after-invalid", "history/call-after-set_param+renormalise", "history/recall-after-inplace-change"]
